@@ -83,6 +83,7 @@ def rule_clamp(chk, cls):
         # some clamping path lands on the second candidate under the facts "the first one is the present time" and "there is another", or the candidates are scanned in a loop
         second = False
         lands_now = None
+        wrong_cand = None
         for p_, ix in cl_paths:
             e = p_[ix[0]]
             v_ = compact(PT.resolve(e.node.value, e.env))
@@ -102,6 +103,11 @@ def rule_clamp(chk, cls):
                                             ((f_[1] is ast.LtE and f_[2] == '1') or (f_[1] is ast.Lt and f_[2] == '2')) and not tr) for f_, tr in facts)
             if near and more and '[1]]' in v_:
                 second = True
+            # the time landed on is the first requested time inside the step ([0] of the candidates) - the second one ([1]) only where the first has been found to be the
+            # present time; never a later one
+            idxs_ = re.findall(r'\)\[0\]\[(\d+)\]\]', v_)
+            if idxs_ and not ((idxs_[-1] == '0') or (idxs_[-1] == '1' and near and more)):
+                wrong_cand = wrong_cand or (v_, e.node)
             # the time landed on is not the present one: no clamping path has established |T - t| < epsilon for the very T it lands on (a step of a rounding error)
             import re as _re
             m_ = _re.match(r'^(?:float\()?(.*)-self\.t\)?$', v_)
@@ -116,6 +122,9 @@ def rule_clamp(chk, cls):
         chk.decide(second or bool(loops_), 'clamp', 'a-time-already-reached-is-skipped-for-the-next', node=node_c, file=SOL, func='_dump_output_if_needed',
                    detail_bad='when the first requested time inside the next step is the one the run is at (t is a rounding error short of it) no path goes on to the next requested time: '
                               'a second output time closer than dt is stepped over and its output never written', detail_ok='second candidate taken when the first is the present time')
+        chk.decide(wrong_cand is None, 'clamp', 'lands-on-the-first-time-within-reach', node=wrong_cand[1] if wrong_cand else node_c, file=SOL, func='_dump_output_if_needed',
+                   detail_bad='a path shortens the step to reach `%s`: not the first requested time inside the step (nor the second where the first is the present time) - the times '
+                              'before it are stepped over and their output is never written' % (wrong_cand[0][:120] if wrong_cand else ''), detail_ok='first candidate, or the second when the first is now')
         chk.decide(lands_now is None, 'clamp', 'never-lands-on-the-present-time', node=lands_now[1] if lands_now else node_c, file=SOL, func='_dump_output_if_needed',
                    detail_bad='a path shortens the step to reach `%s` after having found it within epsilon of the present time: the step becomes a rounding error, and the requested times that '
                               'are still ahead are never landed on' % (lands_now[0] if lands_now else ''), detail_ok='the step is shortened only towards a time that is more than epsilon away')
@@ -446,14 +455,18 @@ def main(chk):
             for k_, v_ in zip(r_.node.value.keys, r_.node.value.values):
                 if M.const_str(k_) == 'dt':
                     dv = PT.resolve(v_, r_.env)
-        pending = PT.took(p_, True, 'self._prev_dt is not None') is not None
+        pending = PT.took(p_, True, 'self._prev_dt is not None') is not None or PT.took(p_, False, 'self._prev_dt is None') is not None
         if pending:
             seen_pending = True
             ok = ok and dv is not None and same(dv, 'self._prev_dt/self._damping_factor')
         else:
             seen_plain = True
-            ok = ok and dv is not None and compact(dv) == 'self._get_undamped_timestep()'
+            # (the undamped step, by its helper or written out)
+            ok = ok and dv is not None and (compact(dv) == 'self._get_undamped_timestep()' or same(dv, 'self.dt/self._damping_factor'))
     ok = ok and seen_pending and seen_plain
+    chk.decide(ok, 'nominal-step-in-output', 'recorded-step-is-the-nominal-one', node=sd, file=SOL, func='_get_solver_data',
+               detail_bad='the step recorded with an output is not the nominal one: with a shortened step pending it must be _prev_dt/_damping_factor, otherwise _get_undamped_timestep()',
+               detail_ok='_prev_dt/_damping_factor while a shortened step is pending, the undamped step otherwise')
     rets = [r for r in ast.walk(sd) if isinstance(r, ast.Return)]
     keys = set(M.const_str(k) for r in rets if isinstance(r.value, ast.Dict) for k in r.value.keys)
     chk.decide(keys == {'dt', 't', 'count'}, 'nominal-step-in-output', 'keys', node=sd, file=SOL, func='_get_solver_data', detail_bad=str(keys), detail_ok=str(sorted(keys)))
@@ -473,7 +486,8 @@ def main(chk):
     bad_rec = bad_rest = bad_land = None
     any_restore = False
     PEND = PT.Atoms({'P': (['self._prev_dt is not None'], ['self._prev_dt is None']),
-                     'D': (['abs(self._prev_dt - self.dt) > self._epsilon', 'abs(self.dt - self._prev_dt) > self._epsilon'], ['abs(self._prev_dt - self.dt) <= self._epsilon'])})
+                     'D': (['abs(self._prev_dt - self.dt) > self._epsilon', 'abs(self.dt - self._prev_dt) > self._epsilon'], ['abs(self._prev_dt - self.dt) <= self._epsilon', 'abs(self.dt - self._prev_dt) <= self._epsilon',
+                                                                                                                       'abs(self._prev_dt - self.dt) < self._epsilon', 'abs(self.dt - self._prev_dt) < self._epsilon'])})
     D_ = 'self._damp_timestep(self._compute_timestep())'
     for p_ in cont:
         ic = PT.stmt_index(p_, lambda e: calls_in(e, 'self._compute_timestep'))
@@ -494,7 +508,7 @@ def main(chk):
         # a pending nominal step (saved when a step was shortened) is restored on every path that finds one
         # (a saved step that equals the current one needs no restoring)
         ms_ = PEND.models(p_[:ic])
-        if ms_ and all(m_['P'] and m_['D'] for m_ in ms_) and not rs:
+        if ms_ and any(m_['P'] and m_['D'] for m_ in ms_) and not rs:          # (a path that is possible with a pending, different step and does not restore it)
             bad_rest = bad_rest or gt
         # landing on tf: after damping, `t + dt > tf - eps` is decided on the damped step; when it holds the returned value is tf - t, otherwise the damped step itself
         ret = p_[-1]
